@@ -547,7 +547,20 @@ func (w *World) pickHolding(label string) (sdk.AccAddress, string, *big.Rat) {
 	return a, pickOf(w, label+"fake", fakeDenoms), nil
 }
 
+// phantom returns (one draw in twelve, when there is one) an identifier that was created only inside a discarded
+// branch. The normal branch is choice 0.
+func (w *World) phantom(label string, pool []string) (string, bool) {
+	if len(pool) == 0 || w.intn(label+"?phantom", 12) != 11 {
+		return "", false
+	}
+	w.Flags["phantom-id-used"] = true
+	return pickOf(w, label+"phantom", pool), true
+}
+
 func (w *World) pickBatchDenom(label string) (string, *baseapi.Batch) {
+	if d, ok := w.phantom(label, w.phBatches); ok {
+		return d, nil
+	}
 	if len(w.S.Batches) > 0 && !w.offState(label) {
 		b := pickOf(w, label, w.S.Batches)
 		return b.Denom, b
@@ -556,6 +569,9 @@ func (w *World) pickBatchDenom(label string) (string, *baseapi.Batch) {
 }
 
 func (w *World) pickClassID(label string) (string, *baseapi.Class) {
+	if d, ok := w.phantom(label, w.phClasses); ok {
+		return d, nil
+	}
 	if len(w.S.Classes) > 0 && !w.offState(label) {
 		c := pickOf(w, label, w.S.Classes)
 		return c.Id, c
@@ -564,6 +580,9 @@ func (w *World) pickClassID(label string) (string, *baseapi.Class) {
 }
 
 func (w *World) pickProjectID(label string) (string, *baseapi.Project) {
+	if d, ok := w.phantom(label, w.phProjects); ok {
+		return d, nil
+	}
 	if len(w.S.Projects) > 0 && !w.offState(label) {
 		p := pickOf(w, label, w.S.Projects)
 		return p.Id, p
@@ -582,6 +601,9 @@ func (w *World) issuersOf(classKey uint64) [][]byte {
 }
 
 func (w *World) creditTypeAbbrev(label string) string {
+	if d, ok := w.phantom(label, w.phCreditTypes); ok {
+		return d
+	}
 	if len(w.S.CreditTypes) > 0 && !w.offState(label) {
 		return pickOf(w, label, w.S.CreditTypes).Abbreviation
 	}
